@@ -24,8 +24,8 @@ func init() {
 			"C20.hooks: Before precedes and After follows the marshal call, both through callForCase, both results asserted with NoError, a failure skips the case; no path from the marshal call to the next case avoids the After hook; the Before hook sits behind the direction filter; both hooks receive the address of the variable the case's Data/Value/Error are read from. C20.support: helperNew allocates a fresh target exactly when helper == nil and T is a pointer type (decision by the type only), otherwise helper.New(value); helperAssertEmpty/Equal assert on t with the values in order, or delegate to the TypeHelper; castToFunc makes both interface probes on its parameter (any(value), any(&value)), not on a zero T. " +
 			"C20.safe: the user's Marshal*/Unmarshal* method is invoked only inside a function with a deferred recover whose result is turned into the returned error; callForCase protects the hooks the same way. " +
 			"C20.verdict: with an error predicate: the predicate is invoked with (t, the obtained error, info) and, on true, an emptiness assertion (assert.Empty / the TypeHelper; not assert.Nil, which also fails on an empty non-nil result) on the produced data/value follows; without: NoError on the obtained error and, on true, an equality assertion between the case's expectation and the produced data/value; every assertion receives the helper's t; the expectation reaches the assertion as loaded from the case, unconverted, and two byte slices are not compared raw with assert.Equal (nil ≠ empty there) but as text or after the both-empty case is merged. " +
-			"C20.pred: each error predicate calls the assertion its name promises (assertion), and can answer false only where an assertion on t is known to have failed — the returned value is an assertion's own result, or the return lies behind the false edge of one, or behind assert.Fail (reports).",
-		NotDecided:  []string{"testify's assertion semantics", "behaviour when T is itself an interface type, beyond castToFunc probing the case value itself (C20.support probe)"},
+			"C20.pred: each error predicate calls the assertion its name promises (assertion), and can answer false only where an assertion on t is known to have failed — the returned value is an assertion's own result, or the return lies behind the false edge of one, or behind assert.Fail (reports). panicError(err, r) is err for r == nil and a freshly constructed error otherwise, and the deferred closures store exactly its result (or an error constructed on the spot); the emptiness and equality assertions lie on every path after the satisfied condition; helperNew returns the zero value of T on every return other than the fresh allocation and helper.New.",
+		NotDecided:  []string{"testify's assertion semantics", "behaviour when T is itself an interface type, beyond castToFunc probing the case value itself (C20.support probe)", "panic(nil) in a marshaler: recover() returns nil under the module's go 1.18 semantics, the panic passes as success (DESIGN §16)"},
 		Assumptions: []string{"assert.NoError/Equal/Nil/Empty/Error report a failure on t exactly when their condition does not hold and return false then"},
 		Technique:   "must-call / dominance / argument-dataflow obligations over go/ssa, applied uniformly to sibling implementations",
 	})
@@ -52,7 +52,7 @@ func runC20(e *Env) {
 	for _, r := range []string{"C20.iface", "C20.dir", "C20.hooks", "C20.safe", "C20.verdict"} {
 		e.S.Floor(r, 6)
 	}
-	e.S.Floor("C20.safe", 8)
+	e.S.Floor("C20.safe", 14)
 	e.S.Floor("C20.pred", 10)
 }
 
@@ -246,7 +246,7 @@ func ruleC20Helper(e *Env, h helperSpec) {
 	tParam := ssa.Value(fn.Params[0])
 	isT := func(v ssa.Value) bool { return derivesFrom(v, tParam) }
 	// ---- the protected call into user code
-	var safe *ssa.Call
+	var safe, userCall *ssa.Call
 	var safeFn *ssa.Function
 	directUser := false
 	for _, b := range fn.Blocks {
@@ -265,6 +265,7 @@ func ruleC20Helper(e *Env, h helperSpec) {
 			for _, cb := range callee.Blocks {
 				for _, cin := range cb.Instrs {
 					if c2, ok := cin.(*ssa.Call); ok && c2.Call.IsInvoke() && c2.Call.Method.Name() == h.name {
+						userCall = c2
 						safe, safeFn = call, callee
 					}
 				}
@@ -281,6 +282,53 @@ func ruleC20Helper(e *Env, h helperSpec) {
 		e.S.Bad("C20.safe", flow.FnName(safeFn), "recover", "the wrapper around the user's "+h.name+" has no deferred recover that turns a panic into the returned error", e.Pos(safeFn), "")
 	default:
 		e.S.Ok("C20.safe", flow.FnName(safeFn), "recover", "user's "+h.name+" invoked under a deferred recover whose value becomes the returned error", e.Pos(safeFn))
+	}
+	// what the wrapper hands to the verdict is what the user's method returned, result for result: data that came
+	// together with an error must still be there for the emptiness assertion to see
+	if safeFn != nil && userCall != nil {
+		passBad := ""
+		n := 0
+		for _, b := range safeFn.Blocks {
+			ret, ok := b.Instrs[len(b.Instrs)-1].(*ssa.Return)
+			if !ok || b == safeFn.Recover {
+				continue
+			}
+			n++
+			vals := flow.ReturnValues(ret)
+			for i, v := range vals {
+				v = flow.Strip(v)
+				// a named result shared with the deferred closure: a load of the cell; what the function itself
+				// stores there (once) is the value in question — the closure's store is panicError's, decided above
+				if ld, ok := v.(*ssa.UnOp); ok && ld.Op == token.MUL {
+					if al, ok := ld.X.(*ssa.Alloc); ok {
+						var stored []ssa.Value
+						for _, r := range *al.Referrers() {
+							if st, ok := r.(*ssa.Store); ok && st.Addr == ssa.Value(al) {
+								stored = append(stored, st.Val)
+							}
+						}
+						if len(stored) == 1 {
+							v = flow.Strip(stored[0])
+						}
+					}
+				}
+				if len(vals) == 1 && v == ssa.Value(userCall) {
+					continue
+				}
+				if ex, ok := v.(*ssa.Extract); ok && ex.Tuple == ssa.Value(userCall) && ex.Index == i {
+					continue
+				}
+				passBad = fmt.Sprintf("result #%d of the wrapper is not result #%d of the user's %s (it is %s)", i, i, h.name, v)
+			}
+		}
+		switch {
+		case passBad != "":
+			e.S.Bad("C20.safe", flow.FnName(safeFn), "results", passBad+": what the helper judges is not what the method returned", e.Pos(safeFn), "a marshaler returning data together with an error")
+		case n == 0:
+			e.S.Unk("C20.safe", flow.FnName(safeFn), "results", "no normal return found in the wrapper", e.Pos(safeFn))
+		default:
+			e.S.Ok("C20.safe", flow.FnName(safeFn), "results", "the wrapper returns the results of the user's "+h.name+" unchanged, each in its place", e.Pos(safeFn))
+		}
 	}
 	if safe == nil {
 		return
@@ -398,7 +446,7 @@ func ruleC20Helper(e *Env, h helperSpec) {
 			}
 		}
 		// the interface tested carries the helper's method
-		ifaceOK := false
+		ifaceOK, viaCast := false, false
 		var ifaceTest ssa.Instruction
 		for _, b := range fn.Blocks {
 			for _, in := range b.Instrs {
@@ -411,7 +459,13 @@ func ruleC20Helper(e *Env, h helperSpec) {
 						}
 					}
 				case *ssa.Call:
-					if f := x.Call.StaticCallee(); f != nil && flow.Origin(f).Name() == "castToFunc" {
+					// castToFunc also accepts the interface on *T: right for a target to unmarshal into, which is
+					// addressable; for the marshal direction "a type lacking the interface" is T itself lacking it (a
+					// value of T handed to encoding/json does not get a pointer method either)
+					if f := x.Call.StaticCallee(); f != nil && flow.Origin(f).Name() == "castToFunc" && h.marshal {
+						viaCast = true
+					}
+					if f := x.Call.StaticCallee(); f != nil && flow.Origin(f).Name() == "castToFunc" && !h.marshal {
 						for _, ta := range f.TypeArgs() {
 							if it, ok := ta.Underlying().(*types.Interface); ok && ifaceHasMethod(it, h.name) {
 								ifaceOK = true
@@ -469,7 +523,11 @@ func ruleC20Helper(e *Env, h helperSpec) {
 		case !behind:
 			e.S.Bad("C20.iface", site, "missing interface", "the interface test runs in front of the direction filter: a case restricted to the other direction is tested too, so a table without any applicable case is reported, and a satisfied one is cut short by an other-direction case", pos, "every case OnlyUnmarshal, type without MarshalText")
 		case !ifaceOK:
-			e.S.Bad("C20.iface", site, "missing interface", "the interface tested does not declare "+h.name, pos, "")
+			if viaCast {
+				e.S.Bad("C20.iface", site, "missing interface", "the value's interface is probed with castToFunc, which also accepts "+h.name+" declared on *T: a type that itself lacks the interface is not reported in the marshal direction", pos, "a case table of values whose "+h.name+" has a pointer receiver")
+			} else {
+				e.S.Bad("C20.iface", site, "missing interface", "the interface tested does not declare "+h.name, pos, "")
+			}
 		default:
 			e.S.Ok("C20.iface", site, "missing interface", "applicable cases: value tested for the interface declaring "+h.name+"; on failure FailNow on t and return", pos)
 		}
